@@ -8,8 +8,11 @@ Bounded (Kani): write_term framing.
 import json
 import os
 import re
-from engine import core, verus, native, rsx
+from engine import core, verus, native, rsx, overlay, kani_unit
 from engine.core import Undecided
+from engine.kani_unit import H
+from engine.rsx import LostAnchor, RewriteRefused
+from contracts import common
 from units import esc as unit
 
 LEVEL = "proof"
@@ -25,7 +28,53 @@ def strip_spec_for_guard(info):
     return fn.replace("pub(crate) fn", "pub fn")
 
 
+KANI = [
+    H("c03_quoted_string_len3", "quoted_string writes exactly esc(txt) for every byte string of length <= 3 (real function, called by name)", bound="len <= 3, all byte values", timeout=1500),
+    H("c03_quoted_string_len4", "same, length <= 4", bound="len <= 4, all byte values", tiers=("thorough",), timeout=3000),
+    H("c03_write_term_iri", "write_term(IRI c) == '<' c '>'", bound="1 ASCII byte", timeout=900),
+    H("c03_write_term_blank", "write_term(blank c) == '_:' c", bound="1 ASCII byte", timeout=900),
+    H("c03_write_term_var", "write_term(variable c) == '?' c", bound="1 ASCII byte", timeout=900),
+    H("c03_write_term_lit_plain", "xsd:string literal: '\"' esc(lex) '\"' and no datatype suffix", bound="concrete literal \"x\"", timeout=900),
+    H("c03_write_term_lit_datatype", "other datatype: '\"' esc(lex) '\"^^<' dt '>'", bound="concrete literal \"x\"^^<d>", timeout=900),
+    H("c03_write_term_lit_lang", "language-tagged literal: '\"' esc(lex) '\"@' tag", bound="lexical form 1 ASCII byte (all values), tag 2 ASCII bytes", tiers=("thorough",), timeout=1800),
+]
+
+
+def run_kani_part(rep):
+    rep.assume(common.ASSUMPTION)
+    rep.functions.append("sophia_turtle::serializer::nt::{write_term, quoted_string} on the real crate (Kani, bounded)")
+    with overlay.Scratch(ID) as s:
+        common.apply_common(s)
+        s.append("turtle/src/serializer/nt.rs", common.expand(open(core.VERIF + "/contracts/esc/kani_nt.rs").read(), "turtle"))
+        # the quoted_string harnesses need no stubs (no term code); only check the stub lines on write_term ones
+        return kani_unit.run_harnesses(rep, s, "sophia_turtle", KANI, jobs=8, need_stubs=False)
+
+
 def run(rep):
+    kfailed = run_kani_part(rep)
+    try:
+        run_verus_part(rep)
+    except (LostAnchor, RewriteRefused) as e:
+        # the unbounded proof lost its anchors (function rewritten): undecided unless the bounded harnesses on the
+        # real code fail, in which case their failure is the reported violation
+        if not kfailed:
+            raise
+        rep.notes.append("Verus splice lost its anchors (%s); verdict comes from the bounded Kani harnesses" % e)
+    if kfailed:
+        info = None
+        try:
+            info = unit.build(core.REPO)
+            extra = {"src/rewritten.rs": strip_spec_for_guard(info)}
+        except Exception:
+            extra = {"src/rewritten.rs": "pub fn quoted_string<W: io::Write>(_w: &mut W, _t: &[u8]) -> io::Result<()> { Ok(()) }\n"}
+        rc, out, err, secs = native.run_replay(ID, "c03", ["enum", str(rep.seed)], extra_files=extra)
+        witness, confirmed = (out.strip().splitlines()[-1], True) if rc == 1 else (None, False)
+        for h, r in kfailed:
+            rep.violation("kani:sophia_turtle::" + h.name, kani_unit.describe_failure(r), witness=witness,
+                          replay_text="./check C03 --replay <this file>", confirmed=confirmed)
+
+
+def run_verus_part(rep):
     info = unit.build(core.REPO)
     rep.cuts.update(info["cuts"])
     rep.rewrites.update(info["rewrites"])
